@@ -1,31 +1,22 @@
 package mempoolrig
 
 import (
-	"encoding/json"
 	"fmt"
 	"math/big"
-	"syscall"
 	"testing"
-	"testing/synctest"
+
+	"github.com/lianxiangcloud/linkchain/types"
 
 	"verif/sim/kernel"
-	"github.com/lianxiangcloud/linkchain/types"
 )
 
-func wallNow() int64 {
-	var tv syscall.Timeval
-	syscall.Gettimeofday(&tv)
-	return tv.Sec*1000000 + int64(tv.Usec)
-}
-
-func TestSmoke(t *testing.T) {
+// TestWriteLog prints the write boundaries of one CommitBlock+ApplyBlock.
+func TestWriteLog(t *testing.T) {
 	rig := &kernel.Rig{Property: "CXX", Name: "smoke", Run: func(c *kernel.Ctx) {
 		kernel.Bubble(c, false, func() {
-			t0 := wallNow()
-			lap := func(what string) { t1 := wallNow(); fmt.Printf("%-20s %6d us\n", what, t1-t0); t0 = t1 }
-			wc := WorldCfg{NUsers: 3, NVals: 1, IsTrie: false}
-			for i := 0; i < 3; i++ {
-				wc.Balances = append(wc.Balances, new(big.Int).Mul(big.NewInt(1e18), big.NewInt(100)))
+			wc := WorldCfg{NUsers: 2, NVals: 1, IsTrie: true}
+			for i := 0; i < 2; i++ {
+				wc.Balances = append(wc.Balances, new(big.Int).Mul(big.NewInt(1e18), big.NewInt(1000000)))
 				wc.Nonces = append(wc.Nonces, 0)
 			}
 			w, err := NewWorld(c, wc)
@@ -33,48 +24,42 @@ func TestSmoke(t *testing.T) {
 				c.HarnessTrouble("world: %v", err)
 				return
 			}
-			lap("world")
 			defer w.Cleanup()
+			e := &Engine{C: c, W: w, Work: c.Tape.Fork("work")}
+			seedCrypto(c.Tape.Fork("x"))
+			e.U = newUtxoState(2)
 			u := w.Users[0]
-			for n := uint64(0); n < 3; n++ {
-				tx := u.Transfer(n, w.Sinks[0], big.NewInt(1000), 0, nil)
-				lap("sign")
-				w.SubmitNow(int(n), tx)
-				lap("submit")
+			ftx, err := e.FundTx(u, 0, []*Wallet{e.U.Wallets[0], e.U.Wallets[1]}, []*big.Int{lkCoins(500), lkCoins(600)})
+			if err != nil {
+				t.Fatal(err)
 			}
-			for i := 0; i < 5; i++ {
-				synctest.Wait()
+			w.OnCommitted = func(b *types.Block) { e.noteUtxoCommitted(b) }
+			b, _, msg, p := w.Propose(0, types.Txs{ftx}, true)
+			if p {
+				t.Fatal(msg)
 			}
-			lap("5 waits")
-			for h := 0; h < 3; h++ {
-				b, _, _, p := w.Propose(w.MaxTxs(), nil, false)
-				lap("propose")
-				if p {
-					return
-				}
-				wb, parts, _ := w.Wire(b)
-				lap("wire")
-				w.Chain.App.CheckBlock(wb)
-				lap("check")
-				id := types.BlockID{Hash: wb.Hash(), PartsHeader: parts.Header()}
-				seen := w.signCommit(w.Chain.Status.Validators, id, wb.Height)
-				lap("signcommit")
-				vals, err := w.Chain.App.CommitBlock(wb, parts, seen, false)
-				lap("CommitBlock")
-				st, err := w.Chain.BlockExec.ApplyBlock(w.Chain.Status.Copy(), id, wb, vals)
-				lap("ApplyBlock")
-				_ = err
-				w.Chain.Status = st
-				w.lastSeen = seen
-				w.Chain.Mempool.Reap(100)
-				lap("reap")
+			fmt.Println(w.Commit(b))
+			stx, err := e.SpendTx(e.U.Wallets[0], []*Owned{e.U.Owned[0]}, 2, lkCoins(100), e.U.Wallets[1], nil, 0)
+			if err != nil {
+				t.Fatal(err)
+			}
+			fmt.Println("submit spend:", w.SubmitNow(1, stx), "transfer:", w.SubmitNow(2, u.Transfer(1, w.Sinks[0], big.NewInt(5000), 0, nil)))
+			w.Chain.Disk.KeepLog(true)
+			s0 := w.Chain.Disk.Seq()
+			b, _, msg, p = w.Propose(100, nil, false)
+			if p {
+				t.Fatal(msg)
+			}
+			fmt.Println(w.Commit(b), len(b.Data.Txs))
+			for _, r := range w.Chain.Disk.Log() {
+				fmt.Printf("  +%d %s %s keys=%d\n", r.Seq-s0, r.DB, r.Op, r.Keys)
 			}
 			w.StopMempool(w.Chain)
 			w.StopMempool(w.Rep)
-			lap("stop")
 		})
 	}}
 	res := kernel.Execute(t, rig, kernel.Quick, kernel.NewTape(1), nil)
-	b, _ := json.Marshal(res)
-	fmt.Println(string(b))
+	if res.Harness != "" {
+		t.Fatal(res.Harness)
+	}
 }
